@@ -15,6 +15,9 @@
 // Bounds: DESIGN.md 2.5, |got - ref| <= 4 (ulp(ref) + Delta).
 //
 // One translation unit per numeric type of the model (-DVERIF_PARTS=3).
+#include <fcntl.h>
+#include <unistd.h>
+
 #include "PhQ/ConstitutiveModel/ElasticIsotropicSolid.hpp"
 #include "common/cond.hpp"
 #include "common/parts.hpp"
@@ -25,6 +28,26 @@ using namespace verif;
 namespace {
 
 constexpr double kK = 4.0;  // the bound of DESIGN.md 2.5
+
+// Breadcrumb with one system call per call site (Reporter::crumb opens and closes the file each time, which costs more
+// than the ~40 library calls per tensor it would announce): same file, same format (first line = call-site key),
+// fixed-size record rewritten in place.  Reporter::finish() removes the file on a clean exit.
+struct FastCrumb {
+  int fd = -1;
+  void operator()(const Reporter& R, const std::string& key, uint64_t index = 0) {
+    if (fd < 0) {
+      fd = ::open((R.out + "/breadcrumb.txt").c_str(), O_WRONLY | O_CREAT, 0644);
+      if (fd < 0) return;
+    }
+    char buf[320];
+    std::memset(buf, ' ', sizeof buf);
+    const int n = std::snprintf(buf, sizeof buf, "%s\nmaterial_index=%llu", key.c_str(), static_cast<unsigned long long>(index));
+    if (n > 0 && n < static_cast<int>(sizeof buf)) buf[n] = ' ';
+    buf[sizeof buf - 1] = '\n';
+    (void)!::pwrite(fd, buf, sizeof buf, 0);
+  }
+};
+FastCrumb crumb;
 
 template <typename T>
 using Solid = PhQ::ConstitutiveModel::ElasticIsotropicSolid<T>;
@@ -273,6 +296,9 @@ inline double q2d(f128 v) {
   return static_cast<double>(v);
 }
 
+// input class of a material by its exact Poisson ratio: the part of the violation key that names the regime
+inline const char* regime(f128 nu) { return nu < 0.01Q ? "nu<0.01" : nu < 0.4Q ? "0.01<=nu<0.4" : "nu>=0.4"; }
+
 // ------------------------------------------------------------------------------------------------------------------
 // ground-truth materials
 // ------------------------------------------------------------------------------------------------------------------
@@ -373,7 +399,7 @@ struct ModelChecks {
       const Ctor<T>& c = ctors[ci];
       const T a = static_cast<T>(gt.mod[c.i]), b = static_cast<T>(gt.mod[c.j]);
       const std::string key = "C12|ctor=" + c.name;
-      R.crumb(key + "|" + tn, J().num("a", a).num("b", b).str());
+      crumb(R, key + "|" + tn, index);
       T rep[7];
       bool threw = !guarded(R, key + "|" + tn, [&] {
         const Solid<T> m = c.build(a, b);
@@ -399,15 +425,20 @@ struct ModelChecks {
         const f128 refs[2] = {ref.mu, ref.la};
         const f128 deltas[2] = {dmu, dla};
         const int stored_kind[2] = {kG, kL};
+        const std::string reg = regime(modulus_of(kNu, ref.mu, ref.la));
+        bool state_ok = true;
         for (int s = 0; s < 2; ++s) {
           const T got = rep[stored_kind[s]];
           const double e = cond_error<T>(got, refs[s], deltas[s]);
           R.eval();
           R.count(std::string("accessor|") + kModName[stored_kind[s]] + "|" + tn);
           R.maxi("err_ctor|" + c.name + "|" + tn, e);
-          R.maxi("delta_over_ulp|" + c.name + "|" + tn, q2d(deltas[s] / ulp_at<T>(refs[s])));
+          // how much of the bound is conditioning: Delta in ulps of max(|ref|, mu) (lambda -> 0 at nu -> 0 is not the point)
+          R.maxi(std::string("delta_over_ulp|") + (s ? "lambda|" : "mu|") + c.name + "|" + tn,
+                 q2d(deltas[s] / ulp_at<T>(fabsq(refs[s]) > ref.mu ? refs[s] : ref.mu)));
           if (!(e <= kK)) {
-            R.violation(key + "|accessor=" + kModName[stored_kind[s]] + "|" + tn,
+            state_ok = false;
+            R.violation(key + "|accessor=" + kModName[stored_kind[s]] + "|" + tn + "|" + reg,
                         J().s("class", gt.nu_class).num("a", a).num("b", b).num("got", got).q("exact", refs[s])
                             .q("delta", deltas[s]).q("ulp", ulp_at<T>(refs[s])).d("error_in_bound_units", e).d("bound", kK)
                             .d("error_ulps", ulps<T>(got, refs[s])).q("exact_nu", modulus_of(kNu, ref.mu, ref.la)).str());
@@ -418,7 +449,10 @@ struct ModelChecks {
           }
         }
         // derived accessors, end to end: own rounding (4 ulp) + the allowed error of the stored state propagated
+        // (not judged when the stored state itself is already in violation: the consequence would only repeat it)
+        if (!state_ok) R.count("accessor_checks_skipped_after_state_violation|" + c.name + "|" + tn);
         for (int k : {kE, kKs, kKt, kM, kNu}) {
+          if (!state_ok) break;
           const f128 r = modulus_of(k, ref.mu, ref.la);
           auto facc = [&](const std::vector<f128>& x) { return modulus_of(k, x[0], x[1]); };
           const f128 prop = sens_sum(facc, {ref.mu, ref.la}, {bmu, bla});
@@ -427,8 +461,9 @@ struct ModelChecks {
           R.eval();
           R.count(std::string("accessor|") + kModName[k] + "|" + tn);
           R.maxi(std::string("err_accessor|") + kModName[k] + "|" + tn, e);
+          R.maxi(std::string("err_accessor_by_ctor|") + kModName[k] + "<-" + c.name + "|" + tn, e);
           if (!(e <= kK)) {
-            R.violation(key + "|accessor=" + kModName[k] + "|" + tn,
+            R.violation(key + "|accessor=" + kModName[k] + "|" + tn + "|" + reg,
                         J().s("class", gt.nu_class).num("a", a).num("b", b).num("got", rep[k]).q("exact", r)
                             .q("allowed_abs_error", allowed).d("error_in_bound_units", e).d("bound", kK)
                             .d("error_ulps", ulps<T>(rep[k], r)).num("stored_mu", rep[kG]).num("stored_lambda", rep[kL])
@@ -461,7 +496,7 @@ struct ModelChecks {
       for (const Ctor<T>& c : ctors) {
         const T a = origin_rep[c.i], b = origin_rep[c.j];
         const std::string key = "C12|rebuild|pair=" + c.name;
-        R.crumb(key + "|" + tn, J().num("a", a).num("b", b).str());
+        crumb(R, key + "|" + tn, index);
         guarded(R, key + "|" + tn, [&] {
           const Solid<T> m2 = c.build(a, b);
           const T mu2 = G.get[kG](m2), la2 = G.get[kL](m2);
@@ -488,7 +523,7 @@ struct ModelChecks {
             R.eval();
             R.maxi("err_rebuild|" + c.name + "|" + tn, e);
             if (!(e <= kK)) {
-              R.violation(key + "|" + tn,
+              R.violation(key + "|" + tn + "|" + regime(modulus_of(kNu, static_cast<f128>(origin_mu), static_cast<f128>(origin_la))),
                           J().s("class", gt.nu_class).s("original_built_by", origin_name).s("which", s ? "lambda" : "mu")
                               .num("original", want[s]).num("reported_a", a).num("reported_b", b).num("rebuilt", got[s])
                               .q("exact_from_reported_pair", s ? ref.la : ref.mu).q("delta_4ulp", d[s])
@@ -553,6 +588,19 @@ inline f128 ref_strain(const std::vector<f128>& x, int s) {
   return r;
 }
 
+// the same formulas with every term taken in absolute value: the scale at which a floating-point evaluation of the
+// sum of terms rounds (classical forward bound |fl(sum t_i) - sum t_i| <= gamma_n sum |t_i|)
+inline f128 abs_stress(const std::vector<f128>& x, int s) {
+  f128 r = 2 * fabsq(x[0] * x[2 + s]);
+  if (diag(s)) r += fabsq(x[1]) * (fabsq(x[2]) + fabsq(x[5]) + fabsq(x[7]));
+  return r;
+}
+inline f128 abs_strain(const std::vector<f128>& x, int s) {
+  f128 r = fabsq(x[2 + s] / (2 * x[0]));
+  if (diag(s)) r += fabsq(x[1] / (2 * x[0] * (3 * x[1] + 2 * x[0]))) * (fabsq(x[2]) + fabsq(x[5]) + fabsq(x[7]));
+  return r;
+}
+
 template <typename M, typename Arg>
 struct TensorChecks {
   using C = Coarser<M, Arg>;
@@ -576,17 +624,22 @@ struct TensorChecks {
   }
 
   // compare `got` with the reference map `ref` at x; fills allowed[] (absolute bound per slot); returns false if a slot failed
-  template <typename RefFn>
-  void judge(const std::string& fn, const std::string& what, RefFn&& ref, const std::vector<f128>& x,
+  // unit of error = ulp(ref) + Delta + ulp(sum of |terms|), Delta = first-order change of the reference when every one
+  // of the 8 inputs (mu, lambda, six slots) moves by one ulp (sum of the one-at-a-time changes), all in the coarser type
+  template <typename RefFn, typename AbsFn>
+  void judge(const std::string& fn, const std::string& what, RefFn&& ref, AbsFn&& absf, const std::vector<f128>& x,
              const std::array<Arg, 6>& got, std::array<f128, 6>& allowed, const std::string& cls, const std::string& nu_class,
              const std::string& maxkey) {
     const std::vector<f128> h = steps(x);
     for (int s = 0; s < 6; ++s) {
       auto f = [&](const std::vector<f128>& y) { return ref(y, s); };
       const f128 r = f(x);
-      const f128 delta = sens_max(f, x, h);
-      const f128 unit = ulp_at<C>(r) + delta;
+      const f128 delta = sens_sum(f, x, h);
+      const f128 terms = absf(x, s);
+      const f128 unit = ulp_at<C>(r) + delta + ulp_at<C>(terms);
       allowed[static_cast<size_t>(s)] = kK * unit;
+      R.maxi("err_ulps_of_largest_term|" + fn + "|" + tag,
+             err_units<Arg>(got[static_cast<size_t>(s)], r, ulp_at<C>(terms)));
       const double e = err_units<Arg>(got[static_cast<size_t>(s)], r, unit);
       R.eval();
       R.maxi(maxkey + "|" + tag, e);
@@ -596,7 +649,7 @@ struct TensorChecks {
         R.violation("C12|" + fn + "|" + tag + "|slot=" + std::to_string(s),
                     J().s("what", what).s("slot", kSlot[s]).s("tensor_class", cls).s("class", nu_class).q("model_mu", x[0])
                         .q("model_lambda", x[1]).raw("input", jarr(in)).num("got", got[static_cast<size_t>(s)]).q("exact", r)
-                        .q("delta", delta).q("ulp_of_coarser_type", ulp_at<C>(r)).d("error_in_bound_units", e).d("bound", kK)
+                        .q("delta", delta).q("ulp_of_coarser_type", ulp_at<C>(r)).q("sum_of_abs_terms", terms).d("error_in_bound_units", e).d("bound", kK)
                         .str());
       } else if (R.want_sample() && e > 1.0) {
         R.sample(J().s("what", what).s("model_type", mn).s("argument_type", an).s("slot", kSlot[s]).s("tensor_class", cls)
@@ -629,20 +682,20 @@ struct TensorChecks {
       const std::array<Arg, 6> rate = make_tensor<Arg>(rng, static_cast<int>(rng.below(kTensorClasses)), static_cast<Arg>(1));
       const PhQ::Strain<Arg> strain(FromArr<PhQ::SymmetricDyad<Arg>>::make(eps));
       const PhQ::StrainRate<Arg> strain_rate(FromArr<PhQ::SymmetricDyad<Arg>>::make(rate), PhQ::Unit::Frequency::Hertz);
-      R.crumb("C12|Stress(strain)|" + tag, J().num("mu", mu).num("lambda", la).raw("strain", jarr(eps)).str());
+      crumb(R, "C12|Stress(strain)|" + tag, index);
       const std::array<Arg, 6> sd = to_arr(model.Stress(strain).Value());
       obs("Stress(strain)", "direct");
       const std::array<Arg, 6> sv = to_arr(base.Stress(strain).Value());
       obs("Stress(strain)", "virtual");
       bits_check("Stress(strain)", "virtual!=direct", sd, sv, eps, mu, la);
-      R.crumb("C12|Stress(strain,strain rate)|" + tag);
+      crumb(R, "C12|Stress(strain,strain rate)|" + tag, index);
       const std::array<Arg, 6> srd = to_arr(model.Stress(strain, strain_rate).Value());
       obs("Stress(strain,strain rate)", "direct");
       const std::array<Arg, 6> srv = to_arr(base.Stress(strain, strain_rate).Value());
       obs("Stress(strain,strain rate)", "virtual");
       bits_check("Stress(strain,strain rate)", "differs-from-Stress(strain)", sd, srd, eps, mu, la);
       bits_check("Stress(strain,strain rate)", "virtual!=direct", srd, srv, eps, mu, la);
-      R.crumb("C12|Stress(strain rate)|" + tag);
+      crumb(R, "C12|Stress(strain rate)|" + tag, index);
       const std::array<Arg, 6> zd = to_arr(model.Stress(strain_rate).Value());
       obs("Stress(strain rate)", "direct");
       const std::array<Arg, 6> zv = to_arr(base.Stress(strain_rate).Value());
@@ -655,14 +708,14 @@ struct TensorChecks {
       R.nontrivial("Stress(strain)|" + tag + "|" + cname + "|" + nu_class);
       std::array<f128, 6> allowed_c{};
       const std::vector<f128> xe = inputs(mu, la, eps);
-      judge("Stress(strain)", "Stress(strain) vs 2 mu eps + lambda tr(eps) I", ref_stress, xe, sd, allowed_c, cname, nu_class, "err_stress");
+      judge("Stress(strain)", "Stress(strain) vs 2 mu eps + lambda tr(eps) I", ref_stress, abs_stress, xe, sd, allowed_c, cname, nu_class, "err_stress");
 
       // ---------------- Strain(Stress(strain)) ----------------
       bool finite = true;
       for (Arg v : sd) finite = finite && std::isfinite(v);
       if (finite) {
         const PhQ::Stress<Arg> stress(FromArr<PhQ::SymmetricDyad<Arg>>::make(sd), PhQ::Unit::Pressure::Pascal);
-        R.crumb("C12|Strain(stress)|" + tag, J().num("mu", mu).num("lambda", la).raw("stress", jarr(sd)).str());
+        crumb(R, "C12|Strain(stress)|" + tag, index);
         const std::array<Arg, 6> ed = to_arr(model.Strain(stress).Value());
         obs("Strain(stress)", "direct");
         const std::array<Arg, 6> ev = to_arr(base.Strain(stress).Value());
@@ -670,7 +723,7 @@ struct TensorChecks {
         bits_check("Strain(stress)", "virtual!=direct", ed, ev, sd, mu, la);
         std::array<f128, 6> allowed_s{};
         judge("Strain(stress)", "Strain(sigma) vs sigma/(2mu) - lambda tr(sigma)/(2mu(3lambda+2mu)) I (sigma = Stress(eps))",
-              ref_strain, inputs(mu, la, sd), ed, allowed_s, cname, nu_class, "err_strain");
+              ref_strain, abs_strain, inputs(mu, la, sd), ed, allowed_s, cname, nu_class, "err_strain");
         // round trip against eps: Strain's own bound + Stress's bound carried through the exact inverse map
         for (int s = 0; s < 6; ++s) {
           f128 carried;
@@ -700,7 +753,7 @@ struct TensorChecks {
       for (Arg v : sig) sfinite = sfinite && std::isfinite(v);
       if (!sfinite) continue;
       const PhQ::Stress<Arg> stress2(FromArr<PhQ::SymmetricDyad<Arg>>::make(sig), PhQ::Unit::Pressure::Pascal);
-      R.crumb("C12|Strain(stress)|" + tag, J().num("mu", mu).num("lambda", la).raw("stress", jarr(sig)).str());
+      crumb(R, "C12|Strain(stress)|" + tag, index);
       const std::array<Arg, 6> e2d = to_arr(model.Strain(stress2).Value());
       obs("Strain(stress)", "direct");
       const std::array<Arg, 6> e2v = to_arr(base.Strain(stress2).Value());
@@ -709,8 +762,8 @@ struct TensorChecks {
       R.nontrivial("Strain(stress)|" + tag + "|" + cname + "|" + nu_class);
       std::array<f128, 6> allowed_s2{};
       judge("Strain(stress)", "Strain(sigma) vs sigma/(2mu) - lambda tr(sigma)/(2mu(3lambda+2mu)) I", ref_strain,
-            inputs(mu, la, sig), e2d, allowed_s2, cname, nu_class, "err_strain");
-      R.crumb("C12|StrainRate(stress)|" + tag);
+            abs_strain, inputs(mu, la, sig), e2d, allowed_s2, cname, nu_class, "err_strain");
+      crumb(R, "C12|StrainRate(stress)|" + tag, index);
       const std::array<Arg, 6> rd = to_arr(model.StrainRate(stress2).Value());
       obs("StrainRate(stress)", "direct");
       const std::array<Arg, 6> rv = to_arr(base.StrainRate(stress2).Value());
@@ -724,12 +777,12 @@ struct TensorChecks {
       for (Arg v : e2d) efinite = efinite && std::isfinite(v);
       if (!efinite) continue;
       const PhQ::Strain<Arg> strain2(FromArr<PhQ::SymmetricDyad<Arg>>::make(e2d));
-      R.crumb("C12|Stress(strain)|" + tag, J().num("mu", mu).num("lambda", la).raw("strain", jarr(e2d)).str());
+      crumb(R, "C12|Stress(strain)|" + tag, index);
       const std::array<Arg, 6> s2d = to_arr(model.Stress(strain2).Value());
       obs("Stress(strain)", "direct");
       std::array<f128, 6> allowed_c2{};
       judge("Stress(strain)", "Stress(strain) vs 2 mu eps + lambda tr(eps) I (eps = Strain(sigma))", ref_stress,
-            inputs(mu, la, e2d), s2d, allowed_c2, cname, nu_class, "err_stress");
+            abs_stress, inputs(mu, la, e2d), s2d, allowed_c2, cname, nu_class, "err_stress");
       for (int s = 0; s < 6; ++s) {
         f128 carried;
         if (diag(s)) {
@@ -757,7 +810,7 @@ struct TensorChecks {
 template <typename M>
 void run_model_type(Reporter& R, const Args& A) {
   ModelChecks<M> mc(R, A);
-  const long long n = A.n("materials", A.thorough() ? 60000 : 1440);
+  const long long n = A.n("materials", A.thorough() ? 120000 : 4800);
   const int ntensors = static_cast<int>(A.n("tensors", A.thorough() ? 3 : 2));
   TensorChecks<M, float> tf(R);
   TensorChecks<M, double> td(R);
